@@ -47,6 +47,7 @@ _PM = r"/pre:with_per_mille#"      # K3 is a C07 finding
 _VP = r"/pre:vpanic#"              # K1a/K1b are C01 / C08 findings
 NOT_ATTRIBUTED = {p: [_PM, _VP] for p in ("C02", "C03", "C04", "C05", "C06", "C09", "C12", "C13", "C15", "C16", "C17", "C18")}
 NOT_ATTRIBUTED["C01"] = [_PM]; NOT_ATTRIBUTED["C08"] = [_PM]; NOT_ATTRIBUTED["C07"] = [_VP]
+NOT_ATTRIBUTED["C14"] = [_PM, _VP]; NOT_ATTRIBUTED["C10"] = [_PM, _VP]
 LEVEL = {"C14": "other"}
 
 # ---- witness search (secondary): scenario families of the replay binary tried when an obligation of a function fails ----
@@ -74,7 +75,7 @@ _SC = [["scan", "128", "k25", "k312", "k911", "k303"], ["scan", "8", "a", "b", "
        ["scan", "64", "k1", "k2", "k3", "k4", "k5", "k6", "k7", "k8", "k9", "k10", "k11", "k12"]]
 BOUNDED_SCEN = {
     "C01": _H + [["putget", "5000"], ["putsweep"], ["keys"], ["pertype"]], "C10": [["keys"], ["pertype"]], "C02": [["reopen"], ["durable"], ["dbsync"], ["names"]] + _H[:4], "C03": [["flushdur"], ["durable"], ["dbsync"], ["syncfail"]],
-    "C04": _SC + _H[:2] + [["pertype"], ["keys"]], "C05": _H + [["reuse"]], "C06": [["reuse"], ["putsweep"], ["grow"]] + _H, "C07": [["bufsize", "131072"], ["bufsize", "1000"], ["reopen"], ["dbsync"], ["scan", "4", "a"]] + _H[:1],
+    "C04": _SC + _H[:2] + [["pertype"], ["keys"]], "C05": _H + [["reuse"]], "C06": [["reuse"], ["putsweep"], ["grow"]] + _H, "C07": [["bufsize", "131072"], ["bufsize", "1000"], ["reopen"], ["dbsync"], ["scan", "4", "a"], ["tablesizes"]] + _H[:1],
     "C08": _H, "C09": [["putget", "5000"], ["putget", "70000"], ["putsweep"], ["values"]], "C12": [["reopen"], ["sigmut"]], "C13": [["sigmut"]], "C15": [["readonly"]],
     "C14": [["bulk"]], "C16": [["flushdur"], ["syncfail"]], "C17": [["stats"]], "C18": [["determ"]],
 }
@@ -226,7 +227,7 @@ def check(prop, tier, args):
     # ------------------------------------------------------------------ Verus leg
     repo = vx.Repo(run.REPO)
     ov = vx.parse_overlay(args.overlay)
-    has_verus = any(prop in fs.serves for fs in ov.fns.values())
+    has_verus = any(prop in fs.serves or (vx.DERIVED_FROM.get(prop, set()) & set(fs.serves)) for fs in ov.fns.values())
     unit = None
     if has_verus:
         try:
